@@ -569,6 +569,18 @@ func (s *allocSweep) checkCall(fn *ssa.Function, ci ssa.CallInstruction, here []
 		return
 	}
 	ok := s.trusted[cname]
+	if ok && encoderShaped(callee.Signature) && len(cc.Args) > dstArgIndex(cc) {
+		// a library appender (strconv.AppendInt, (time.Time).AppendFormat, ...) allocates nothing
+		// only while the result fits its dst: the same scope as `append`
+		dok := bufDerived(fn, cc.Args[dstArgIndex(cc)], 0, map[ssa.Value]bool{})
+		dwhy := "dst argument derives from the pooled buffer"
+		if !dok {
+			dwhy = "dst argument of " + cname + " is not derived from Event.buf / Array.buf / the dst parameter: its appends may grow on the heap (reached via " + via + ")"
+		}
+		if dok || s.exemption(fn, "dst:"+cname) == nil {
+			s.oblige(fn, "dst "+cname, pos, dok, "callgraph", dwhy)
+		}
+	}
 	why := cname + " is in the trusted allocation-free table"
 	if !ok {
 		why = cname + " is outside the module and not in the trusted allocation-free table (reached via " + via + ")"
